@@ -4,13 +4,27 @@
             | :k j                AccountingTestMemoryAllocator around object j
             | :l j                MemoryLeakAllocator around object j
      op   ::= :a e al addr size | :f e al addr|~ | :r al addr|~ newaddr size | :w addr $bytes | :t 0|1
+            | :A form al addr size   make object al the current allocator of the form's family, allocate through that form
+            | :F form al addr|~      the same on the releasing side
             | :e 0|1|2|3          detector disable() / enable() / startChecking() / stopChecking()
             | :s 0|1              decrease / increaseAllocationStage()
-            | :m 0|1              install the default / the thread-safe new-delete-malloc overloads
-     e    ::= 0 new/delete  1 new[]/delete[]  2 malloc/free  3 MemoryLeakAllocator::alloc_memory/free_memory
+            | :m 0|1              turnOnDefaultNotThreadSafeNewDeleteOverloads() / turnOnThreadSafeNewDeleteOverloads()   (= :o 1 / :o 2)
+            | :o 0|1|2|3|4        turnOff.. / turnOnDefaultNotThreadSafe.. / turnOnThreadSafe.. / saveAndDisable.. / restoreNewDeleteOverloads()
+     e    ::= 0 new/delete  1 new[]/delete[]  2 malloc/free  (= the plain forms :A 0 / :A 4 / :A 8, :F 0 / :F 5 / :F a)
+              3 MemoryLeakAllocator::alloc_memory/free_memory
               4 / 5 detector allocMemory/deallocMemory called directly, allocatNodesSeperately = false / true
-   Observation: one item per :f / :r :   | calls cat nfreed (addr $bytes|~)*nfreed total res *)
+     form (:A) ::= 0 new(n) 1 new(n,nothrow) 2 new(n,file,int) 3 new(n,file,size_t) 4..7 the same of new[]
+                   8 cpputest_malloc 9 cpputest_malloc_location a cpputest_calloc b cpputest_strdup c cpputest_strndup
+     form (:F) ::= 0 delete(p) 1 delete(p,size_t) 2 delete(p,nothrow) 3 delete(p,file,int) 4 delete(p,file,size_t) 5..9 the same of delete[]
+                   a cpputest_free b cpputest_free_location
+   Every scenario starts in a fresh process image: the eleven function pointers as their static initialisers leave them.
+   Observation: one item per :f / :F / :r :   | calls cat nfreed (addr $bytes|~)*nfreed total res *)
 let entry_of = function 0 -> ENew | 1 -> ENewArr | 2 -> EMalloc | 3 -> EString | 4 -> EDirect false | 5 -> EDirect true | _ -> raise (Bad "entry")
+let aform_of = function 0 -> ANew | 1 -> ANewNothrow | 2 -> ANewFileInt | 3 -> ANewFileSize | 4 -> AArr | 5 -> AArrNothrow | 6 -> AArrFileInt
+  | 7 -> AArrFileSize | 8 -> AMalloc | 9 -> AMallocLoc | 10 -> ACalloc | 11 -> AStrdup | 12 -> AStrndup | _ -> raise (Bad "allocating form")
+let rform_of = function 0 -> RDel | 1 -> RDelSized | 2 -> RDelNothrow | 3 -> RDelFileInt | 4 -> RDelFileSize | 5 -> RArr | 6 -> RArrSized
+  | 7 -> RArrNothrow | 8 -> RArrFileInt | 9 -> RArrFileSize | 10 -> RFree | 11 -> RFreeLoc | _ -> raise (Bad "releasing form")
+let swop_of = function 0 -> SwOff | 1 -> SwDefault | 2 -> SwSafe | 3 -> SwSave | 4 -> SwRestore | _ -> raise (Bad "overload switch")
 let pop_of = function 0 -> PDisable | 1 -> PEnable | 2 -> PStart | 3 -> PStop | _ -> raise (Bad "period operation")
 let optaddr s = if s = "~" then None else Some (n_tok s)
 let desc c = match next c with
@@ -21,28 +35,35 @@ let desc c = match next c with
 let rec ops c =
   if at_end c then [] else
   let o = match next c with
-    | ":a" -> let e = entry_of (int_tok (next c)) in let al = nat_tok (next c) in let a = n_tok (next c) in let sz = n_tok (next c) in OpAlloc (e, al, a, sz)
-    | ":f" -> let e = entry_of (int_tok (next c)) in let al = nat_tok (next c) in let p = optaddr (next c) in OpFree (e, al, p)
-    | ":r" -> let al = nat_tok (next c) in let p = optaddr (next c) in let na = n_tok (next c) in let sz = n_tok (next c) in OpRealloc (al, p, na, sz)
-    | ":w" -> let a = n_tok (next c) in let bs = bytes_tok (next c) in OpWrite (a, bs)
-    | ":t" -> OpTypeCheck (bool_tok (next c))
-    | ":e" -> OpPeriod (pop_of (int_tok (next c)))
-    | ":s" -> OpStage (bool_tok (next c))
-    | ":m" -> OpOverloads (bool_tok (next c))
+    | ":a" -> let e = int_tok (next c) in let al = nat_tok (next c) in let a = n_tok (next c) in let sz = n_tok (next c) in
+              (match e with 0 -> XAlloc (ANew, al, a, sz) | 1 -> XAlloc (AArr, al, a, sz) | 2 -> XAlloc (AMalloc, al, a, sz)
+                          | _ -> XDet (OpAlloc (entry_of e, al, a, sz)))
+    | ":f" -> let e = int_tok (next c) in let al = nat_tok (next c) in let p = optaddr (next c) in
+              (match e with 0 -> XFree (RDel, al, p) | 1 -> XFree (RArr, al, p) | 2 -> XFree (RFree, al, p)
+                          | _ -> XDet (OpFree (entry_of e, al, p)))
+    | ":A" -> let f = aform_of (int_tok (next c)) in let al = nat_tok (next c) in let a = n_tok (next c) in let sz = n_tok (next c) in XAlloc (f, al, a, sz)
+    | ":F" -> let f = rform_of (int_tok (next c)) in let al = nat_tok (next c) in let p = optaddr (next c) in XFree (f, al, p)
+    | ":r" -> let al = nat_tok (next c) in let p = optaddr (next c) in let na = n_tok (next c) in let sz = n_tok (next c) in XRealloc (al, p, na, sz)
+    | ":w" -> let a = n_tok (next c) in let bs = bytes_tok (next c) in XDet (OpWrite (a, bs))
+    | ":t" -> XDet (OpTypeCheck (bool_tok (next c)))
+    | ":e" -> XDet (OpPeriod (pop_of (int_tok (next c))))
+    | ":s" -> XDet (OpStage (bool_tok (next c)))
+    | ":m" -> XSwitch (if bool_tok (next c) then SwSafe else SwDefault)
+    | ":o" -> XSwitch (swop_of (int_tok (next c)))
     | t -> raise (Bad ("op " ^ t)) in
   o :: ops c
 let scenario ts =
   let c = { rest = ts } in
   let j = bool_tok (next c) in
   let ds = counted c desc in
-  { sc_jump = j; sc_allocs = ds; sc_ops = ops c }
+  { ps_jump = j; ps_allocs = ds; ps_ops = ops c }
 let pitem x =
   String.concat " " (["|"; pn x.o_calls; pn x.o_cat; Printf.sprintf "%x" (List.length x.o_freed)]
                      @ List.concat_map (fun (a, b) -> [pn a; poptbytes b]) x.o_freed
                      @ [pn x.o_total; pbool x.o_res])
 let run_line ts =
   let s = scenario ts in
-  if not (valid s) then raise (Bad "invalid scenario") else String.concat " " (List.map pitem (run s))
+  if not (pvalid s) then raise (Bad "invalid scenario") else String.concat " " (List.map pitem (prun s))
 let rec items c =
   if at_end c then [] else begin
     (match next c with "|" -> () | t -> raise (Bad ("item " ^ t)));
@@ -55,4 +76,4 @@ let rec items c =
     i :: items c
   end
 (* an invalid scenario (only the shrinker produces them) is outside the property's quantifier: not a failing input *)
-let spec_line ts os = let s = scenario ts in if not (valid s) then true else spec s (items { rest = os })
+let spec_line ts os = let s = scenario ts in if not (pvalid s) then true else pspec s (items { rest = os })
